@@ -18,7 +18,8 @@ CROSS = {
             ("C05", "R2_one_delta", "tick updates seeded with the wrong side's growth credit fees nobody paid"),
             ("C15", "R4_loaders_and_unchecked", "a tick array of another pool lets one pool's liquidity be counted in another"),
             ("xfer", "R_cpi_builders", "deposits must arrive in the vault and only pool-signed outflows may leave it, for the amount computed"),
-            ("C03", "R7_amount_and_limit_wiring", "what a v2 swap pays out is what the loop computed, not what was asked for")],
+            ("C03", "R7_amount_and_limit_wiring", "what a v2 swap pays out is what the loop computed, not what was asked for"),
+            ("lostupdate", "R_lost_updates", "an update made to a copy of the state and dropped never happened")],
     "C03": [("C16", "R4_helpers", "the limits are compared with amounts net of the Token-2022 transfer fee, which is rounded up"),
             ("C06", "R4_swap_transfers", "what is compared with the limit must be what is transferred"),
             ("C16", "R5_tlv_reader", "the fee schedule of the current epoch decides what the trader pays and receives")],
@@ -33,12 +34,14 @@ CROSS = {
             ("C12", "R3_accessors", "a partial tick update leaves stale net / gross behind"),
             ("C13", "R3_byte_offset", "a tick read or written at the wrong byte offset is another tick's net / gross"),
             ("pair", "manager::liquidity_manager::calculate_modify_liquidity", "the array that is grown is the array whose tick is initialised"),
-            ("C18", "R1_range_fields", "a position moved to a new range while it still holds liquidity leaves that liquidity booked in the old ticks")],
+            ("C18", "R1_range_fields", "a position moved to a new range while it still holds liquidity leaves that liquidity booked in the old ticks"),
+            ("lostupdate", "R_lost_updates", "an update made to a copy of the state and dropped never happened")],
     "C07": [("C01", "R2_pay_reset", "collecting fees resets what is owed and nothing else (the checkpoint stays)"),
             ("C15", "R3_back_references", "a position settled against another pool's growth is credited fees its pool never collected"),
             ("C10", "R5_loop_cursor", "a cursor moved without a crossing leaves fee_growth_outside flipped"),
             ("C06", "R3_booking_side", "fee growth booked on the wrong token is credited in the wrong token"),
-            ("C06", "R4_swap_transfers", "ticks crossed by a swap whose pool update is skipped keep a flipped fee_growth_outside: a position bounded there is credited the pool's whole history")],
+            ("C06", "R4_swap_transfers", "ticks crossed by a swap whose pool update is skipped keep a flipped fee_growth_outside: a position bounded there is credited the pool's whole history"),
+            ("lostupdate", "R_lost_updates", "an update made to a copy of the state and dropped never happened")],
     "C08": [("C16", "R3_reposition_info", "the caller's maxima bound what a reposition may take, whichever way the net transfer goes"),
             ("C02", "R5_exact_remainders", "deposits are rounded up through the same remainder tests"),
             ("pair", "manager::liquidity_manager::calculate_liquidity_token_deltas", "both packagings compute the same token amounts for a liquidity delta")],
@@ -53,7 +56,8 @@ CROSS = {
             ("C15", "R3_back_references", "a position of another pool has no share in this pool's rewards"),
             ("C12", "R3_accessors", "the Pinocchio write-back of reward growth and its timestamp"),
             ("C16", "R1_swap_wiring", "the v2 wrapper must hand on the accrued reward infos"),
-            ("C07", "R3_init_convention", "a tick initialised at or below the price takes the accrued growths as its outside value")],
+            ("C07", "R3_init_convention", "a tick initialised at or below the price takes the accrued growths as its outside value"),
+            ("lostupdate", "R_lost_updates", "an update made to a copy of the state and dropped never happened")],
     "C12": [("C13", "R5_shared_checks", "the Pinocchio lookup must serve exactly the ticks the Anchor one serves")],
     "C13": [("C12", "R3_accessors", "a de-initialised fixed slot must be cleared as a dynamic one is"),
             ("pair", "state::tick::Tick::check_is_out_of_bounds", "both array implementations accept the same ticks, the boundary ticks included")],
@@ -63,7 +67,8 @@ CROSS = {
             ("C06", "R8_widths", "total rates of adaptive-fee pools exceed u16 and must reach the step computation whole"),
             ("C16", "R1_swap_wiring", "the v2 wrapper must hand on the updated adaptive-fee variables"),
             ("C20", "R4_fee_manager_ports", "program and SDK fee managers are each other's reference"),
-            ("C17", "R1_legs", "each leg of a two-hop is charged by its own pool's adaptive-fee state")],
+            ("C17", "R1_legs", "each leg of a two-hop is charged by its own pool's adaptive-fee state"),
+            ("lostupdate", "R_lost_updates", "an update made to a copy of the state and dropped never happened")],
     "C16": [("C03", "R1_threshold_table", "the trader's limit is compared with the amount net of transfer fees"),
             ("xfer", "R_cpi_builders", "checked transfers carry the mint, its decimals and - iff it has a hook - the hook accounts"),
             ("events", "R_events", "the amounts and transfer fees reported are those of the same token side")],
@@ -75,14 +80,16 @@ CROSS = {
             ("C15", "R1b_instruction_args", "the direction each leg's vault and mint constraints are evaluated with is that leg's own direction")],
     "C18": [("C04", "R4b_token_account_loader", "the frozen token account of a locked position is still a valid token account"),
             ("C15", "R3_back_references", "a position is re-ranged against its own pool only"),
-            ("C04", "R1e_mutated_accounts_are_mut", "a bundle whose bitmap is not written back keeps the closed position's bit")],
+            ("C04", "R1e_mutated_accounts_are_mut", "a bundle whose bitmap is not written back keeps the closed position's bit"),
+            ("lostupdate", "R_lost_updates", "an update made to a copy of the state and dropped never happened")],
     "C15": [("C17", "R4_distinct_and_shared_mint", "the two pools of a two-hop are two different accounts"),
             ("C04", "R4b_token_account_loader", "token accounts are accepted from the two token programs only, compared in full"),
             ("C04", "R3_pinocchio_labelling", "a program slot holds the program it is named after")],
     "C06": [("C04", "R1e_mutated_accounts_are_mut", "owed protocol fees that are not reset are paid again"),
             ("C16", "R5_tlv_reader", "the input the pool books is what arrives net of the current epoch's transfer fee"),
             ("C07", "R6_swap_growth_handoff", "the step's LP share is divided by the liquidity it traded against and booked before the tick is crossed"),
-            ("C17", "R3_equality_guard", "tokens a second hop does not price are taken from the trader and credited to nobody")],
+            ("C17", "R3_equality_guard", "tokens a second hop does not price are taken from the trader and credited to nobody"),
+            ("lostupdate", "R_lost_updates", "an update made to a copy of the state and dropped never happened")],
     "C19": [("C16", "R5_tlv_reader", "the program's own copy of the extension numbering decides which rule a mint is held to")],
     "C20": [("C10", "R3_search_siblings", "the program side the SDK mirrors is one search, whichever array encoding serves it")],
 }
@@ -115,7 +122,7 @@ def apply(run, prop):
                 run.missing("RX", "rule-crashed:pair:" + f, "%s: %s" % (type(e).__name__, e))
             continue
         try:
-            if m in ("xfer", "events"):
+            if m in ("xfer", "events", "lostupdate"):
                 getattr(mod, f)(run, "RX")
             else:
                 getattr(mod, f)(RuleProxy(run, "RX"))
